@@ -530,6 +530,9 @@ def resolve_table(table):
         rc["mro"] = [c["id"]] + (base["mro"] if base is not None else [])
         rc["rfrozen"] = bool(c.get("frozen")) or (base is not None and base["rfrozen"])
         rc["rkey"] = c.get("key") if c.get("key") is not None else (base["rkey"] if base is not None else None)
+        for hook in ("post_init", "post_copy"):
+            if rc.get(hook) is None and base is not None:
+                rc[hook] = base.get(hook)
         by_id[c["id"]] = rc
         out.append(rc)
     return out, heap0
@@ -678,10 +681,20 @@ def drop_op(case, j):
     return dict(case, ops=out)
 
 
-def shrink_case(pid, case, mask, rounds=12):
+def shrink_case(pid, case, mask, rounds=40):
     cur = case
+    # 1. shortest failing prefix
+    prefixes = [dict(cur, ops=cur["ops"][:n]) for n in range(1, len(cur["ops"]))]
+    if prefixes:
+        bad, _ = evaluate(pid, prefixes, tag="s")
+        hit = [i for i, c, _ in bad if c & mask]
+        if hit:
+            cur = prefixes[min(hit)]
+    # 2. drop single operations (latest first), keeping the last one
     for _ in range(rounds):
-        cands = [c for c in (drop_op(cur, j) for j in range(len(cur["ops"]))) if c is not None and c["ops"]]
+        idx = [j for j in range(len(cur["ops"]) - 1)][::-1]
+        cands = [(j, drop_op(cur, j)) for j in idx]
+        cands = [c for _, c in cands if c is not None and c["ops"]]
         if not cands:
             break
         bad, _ = evaluate(pid, cands, tag="s")
